@@ -60,7 +60,7 @@ def allCfgs : List Cfg :=
     a private `OSError` subclass, `PermissionError`, `FileNotFoundError`, `KeyError`, `ssl.SSLError`,
     `RuntimeError`.  The model's behaviour does not depend on the class: nothing in the start-up
     path may catch any of them. -/
-def nClasses : Nat := 6
+def nClasses : Nat := 8
 
 /-- the complete behaviour table: every configuration, no fault and every (fault class, fault position);
     each row is tagged with its fault class (0 for the fault-free row) -/
